@@ -51,7 +51,8 @@ Lemma add_to_balance_ok s a t v s' :
   valid_ticker t = true /\ v < two63 /\ s' = set_bal s (<[(a, t) := get_bal (bal s) a t + v]> (bal s)).
 Proof.
   unfold add_to_balance. destruct (valid_ticker t); cbn [negb]; [|discriminate].
-  destruct (Z.leb_spec two63 v) as [Hx|Hx]; [discriminate|]. intros HH; inversion HH; subst. auto.
+  destruct (Z.leb_spec two63 v) as [Hx|Hx]; [discriminate|].
+  destruct (max_int64 <? _); [discriminate|]. intros HH; inversion HH; subst. auto.
 Qed.
 
 Lemma add_to_balance_nonneg s a t v s' :
